@@ -106,7 +106,11 @@ def run_requests(variant, proxy, http1, http2, alpn, reqs):
     plan = []
     for i, (scheme, host, pf, sni) in enumerate(reqs):
         base, port = url_of(scheme, host, pf)
-        plan.append((f"{base}/t/q{i}", {"sni_hostname": sni} if sni else {}, scheme, host, port, sni))
+        if sni == "@target":
+            # the "target" request extension (here: naming the URL's own path) must leave the destination alone
+            plan.append((f"{base}/t/q{i}", {"target": f"/t/q{i}".encode()}, scheme, host, port, None))
+        else:
+            plan.append((f"{base}/t/q{i}", {"sni_hostname": sni} if sni else {}, scheme, host, port, sni))
     if variant == "sync":
         def prog():
             for url, ext, *_ in plan:
@@ -205,6 +209,10 @@ def judge(variant, proxy, http1, http2, alpn, reqs, w, topo, plan, results, res,
 def config_cases(tier):
     for scheme, pf, proxy, (h1, h2), alpn, sni in itertools.product(SCHEMES, PORT_FORMS, PROXIES, SWITCHES, ALPN, [None, "sni.example"]):
         yield ("config", proxy, h1, h2, alpn, [(scheme, "a.example", pf, sni)])
+    # request extensions that must not move the request: "target" alone, and followed by a plain request to the same origin (reuse)
+    for scheme, pf, proxy, (h1, h2, alpn) in itertools.product(SCHEMES, PORT_FORMS, PROXIES, [(True, False, "http/1.1"), (True, True, "h2")]):
+        yield ("config", proxy, h1, h2, alpn, [(scheme, "a.example", pf, "@target")])
+        yield ("config", proxy, h1, h2, alpn, [(scheme, "a.example", pf, "@target"), (scheme, "a.example", pf, None)])
 
 
 def pair_cases(tier):
@@ -266,7 +274,7 @@ def check(tier="quick", seed=0, workers=None, only=None):
             classes |= cl
     ncfg = sum(1 for c in allc if c[0] == "config")
     cov = {"evaluations": total, "distinct_nontrivial": len(classes), "exhaustive": True,
-           "rule": ("full configuration product scheme(4) x port form(4) x proxy mode(5) x http1/http2 switches(3) x ALPN outcome(3) x sni_hostname(2), and every request "
+           "rule": ("full configuration product scheme(4) x port form(4) x proxy mode(5) x http1/http2 switches(3) x ALPN outcome(3) x sni_hostname(2), the same with the target request extension, and every request "
                     "sequence of length 2-3 over every pair of origins (4 schemes x 2 hosts x 4 port forms) differing in exactly one effective component, sync and async; "
                     "distinct class = (kind, proxy, switches, ALPN, schemes of the sequence, violated?)"),
            "samples": [{"case": repr(c)[:300]} for c in allc[:: max(1, len(allc) // 5)][:5]], "configurations": ncfg, "pair_sequences": len(allc) - ncfg}
